@@ -64,7 +64,8 @@ def _names(draw, raw=False, long_ok=True, simple=False):
         return draw(st.text(alphabet="abcdef", min_size=1, max_size=6))
     if mode == 7:
         return draw(st.sampled_from(["-", "-f", "--", "-rf", ".hidden", "..x", ". ", " ", "~",
-                                     ".trashinfo", "x.trashinfo", "a_1", "foo", "foo_1",
+                                     ".trashinfo", "x.trashinfo", "a_1", "foo", "foo_1", "...", "....",
+                                     "a.trashinfo.d",
                                      "Path=x", "[Trash Info]", "%", "%41", "a%2Fb", "*", "?",
                                      "[a]", "\n", "a\nb", "a\rb", "\\", "$HOME", "`x`"]))
     chars = draw(st.lists(name_chars(raw), min_size=1, max_size=8))
